@@ -81,6 +81,8 @@ def gen_level_tables(rng, depth, dirty):
                         segs.append(lit(fresh(strict=(ci == 0))))
                         if rng.random() < 0.5:
                             segs.append(('E', rng.choice([1, 2, 3, 11] if lv == 1 else [1, 2, 3])))
+                            if rng.random() < 0.25:
+                                segs.append(lit(rng.choice("xyz")))      # text directly behind the index: a#2x/
                         segs.append(lit("/"))
                     segs = merge(segs)
                 t.append(pc.mk_port(segs, b"", en_meta(), tables[lv + 1], kind=k))
